@@ -25,20 +25,32 @@ def apply_edit(rng, db, hd, kind, counter):
     """Apply one in-place edit through plain attribute assignment / public methods. Returns a description."""
     T, E, R, G = hd['tables'], hd['enums'], hd['refs'], hd['groups']
     fresh = lambda base: f'{base}_{counter}'  # noqa: E731
+    lost = hd.setdefault('lost', [])
+
+    def put(owner, attr, value, what):
+        """assign, then read the attribute back THROUGH ITS OWNER (`owner()` is evaluated again): what was written is what is
+        there. The expected content of an edit is the value written, not whatever the object reports afterwards."""
+        setattr(owner(), attr, value)
+        got = getattr(owner(), attr)
+        if not (got is value or got == value):
+            lost.append(f'{what} = {value!r} reads back as {got!r}')
     if kind.startswith('t.') and T:
         t = rng.choice(T)
         if kind == 't.name':
-            t.name = fresh('tbl')
+            put(lambda: t, 'name', fresh('tbl'), 'table.name')
         elif kind == 't.schema':
-            t.schema = rng.choice(['public', 'sales', 'hr', fresh('sch')])
+            put(lambda: t, 'schema', rng.choice(['public', 'sales', 'hr', fresh('sch')]), 'table.schema')
             if sum(1 for x in T if x.full_name == t.full_name) > 1:
                 t.name = fresh('tbl')
         elif kind == 't.alias':
-            t.alias = rng.choice([None, fresh('al')])
+            put(lambda: t, 'alias', rng.choice([None, fresh('al')]), 'table.alias')
         elif kind == 't.note':
-            t.note = Note(rng.choice(['', 'new note', 'new\nnote']))
+            v = rng.choice(['', 'new note', 'new\nnote'])
+            t.note = Note(v)
+            if t.note.text != v:
+                lost.append(f'table.note = Note({v!r}) reads back as {t.note.text!r}')
         elif kind == 't.color':
-            t.header_color = rng.choice([None, '#abc', '#123456'])
+            put(lambda: t, 'header_color', rng.choice([None, '#abc', '#123456']), 'table.header_color')
         elif kind == 't.add_column':
             t.add_column(Column(fresh('col'), rng.choice(['int', 'text']), pk=rng.random() < 0.3, note=rng.choice([None, 'cn'])))
         elif kind == 't.add_index':
@@ -47,9 +59,10 @@ def apply_edit(rng, db, hd, kind, counter):
                               pk=rng.random() < 0.2))
         elif kind == 't.note_text':
             # the text of the existing Note object, changed in place (not a new Note): whatever is stored is what renders
-            t.note.text = rng.choice(['plain', '  indented', '\n\nblank lines around\n\n', '    a\n    b', 'tail  ', ''])
+            put(lambda: t.note, 'text', rng.choice(['plain', '  indented', '\n\nblank lines around\n\n', '    a\n    b', 'tail  ', '']), 'table.note.text')
         elif kind == 'ix.note_text' and t.indexes:
-            rng.choice(t.indexes).note.text = rng.choice(['plain', '  indented', '\nlead', ''])
+            ix_ = rng.choice(t.indexes)
+            put(lambda: ix_.note, 'text', rng.choice(['plain', '  indented', '\nlead', '']), 'index.note.text')
         elif kind == 't.twin_index' and t.indexes:
             # an index that differs from an existing one in a single attribute (note, comment, name, a flag)
             src = rng.choice(t.indexes)
@@ -76,20 +89,23 @@ def apply_edit(rng, db, hd, kind, counter):
         t = rng.choice(T)
         c = rng.choice(t.columns)
         if kind == 'c.name':
-            c.name = fresh('c')
+            put(lambda: c, 'name', fresh('c'), 'column.name')
         elif kind == 'c.type':
-            c.type = rng.choice(['bigint', 'varchar(10)', 'uuid'])
+            put(lambda: c, 'type', rng.choice(['bigint', 'varchar(10)', 'uuid']), 'column.type')
         elif kind == 'c.type_enum' and E:
-            c.type = rng.choice(E)
+            put(lambda: c, 'type', rng.choice(E), 'column.type')
         elif kind == 'c.note_text':
-            c.note.text = rng.choice(['plain', '  indented', '\n\nblank lines around\n', '    a\n    b', ''])
+            put(lambda: c.note, 'text', rng.choice(['plain', '  indented', '\n\nblank lines around\n', '    a\n    b', '']), 'column.note.text')
         elif kind == 'c.flags':
             f = rng.choice(['pk', 'unique', 'not_null', 'autoinc'])
-            setattr(c, f, not getattr(c, f))
+            put(lambda: c, f, not getattr(c, f), 'column.' + f)
         elif kind == 'c.default':
-            c.default = rng.choice([None, 0, 5, 1.5, True, False, 'txt', '', Expression('now()')])
+            put(lambda: c, 'default', rng.choice([None, 0, 5, 1.5, True, False, 'txt', '', Expression('now()')]), 'column.default')
         elif kind == 'c.note':
-            c.note = Note(rng.choice(['', 'cnote']))
+            v = rng.choice(['', 'cnote'])
+            c.note = Note(v)
+            if c.note.text != v:
+                lost.append(f'column.note = Note({v!r}) reads back as {c.note.text!r}')
         return kind
     if kind.startswith('ix.') and T:
         t = rng.choice(T)
@@ -97,53 +113,55 @@ def apply_edit(rng, db, hd, kind, counter):
             ix = rng.choice(t.indexes)
             if kind == 'ix.flags':
                 f = rng.choice(['pk', 'unique'])
-                setattr(ix, f, not getattr(ix, f))
+                put(lambda: ix, f, not getattr(ix, f), 'index.' + f)
             else:
-                ix.name = rng.choice([None, fresh('ix')])
+                put(lambda: ix, 'name', rng.choice([None, fresh('ix')]), 'index.name')
         return kind
     if kind.startswith('e.') and E:
         e = rng.choice(E)
         if kind == 'e.name':
-            e.name = fresh('en')
+            put(lambda: e, 'name', fresh('en'), 'enum.name')
         elif kind == 'e.schema':
-            e.schema = rng.choice(['public', 'sales'])
+            put(lambda: e, 'schema', rng.choice(['public', 'sales']), 'enum.schema')
             if sum(1 for x in E if (x.schema, x.name) == (e.schema, e.name)) > 1:
                 e.name = fresh('en')
         elif kind == 'e.add_item':
             e.add_item(rng.choice([fresh('it'), EnumItem(fresh('it2'), note='n')]))
         elif kind == 'e.item_name' and e.items:
-            rng.choice(e.items).name = fresh('itn')
+            it_ = rng.choice(e.items)
+            put(lambda: it_, 'name', fresh('itn'), 'enum item.name')
         return kind
     if kind.startswith('r.') and R:
         r = rng.choice(R)
         if kind == 'r.type':
-            r.type = rng.choice(['>', '<', '-', '<>'])
+            put(lambda: r, 'type', rng.choice(['>', '<', '-', '<>']), 'reference.type')
         elif kind == 'r.inline':
             r.inline = not r._inline
         elif kind == 'r.name':
-            r.name = rng.choice([None, fresh('fk')])
+            put(lambda: r, 'name', rng.choice([None, fresh('fk')]), 'reference.name')
         elif kind == 'r.actions':
-            r.on_update = rng.choice([None, 'cascade', 'set null'])
-            r.on_delete = rng.choice([None, 'restrict', 'no action'])
+            put(lambda: r, 'on_update', rng.choice([None, 'cascade', 'set null']), 'reference.on_update')
+            put(lambda: r, 'on_delete', rng.choice([None, 'restrict', 'no action']), 'reference.on_delete')
         return kind
     if kind.startswith('g.') and G:
         g = rng.choice(G)
         if kind == 'g.name':
-            g.name = fresh('grp')
+            put(lambda: g, 'name', fresh('grp'), 'group.name')
         else:
-            g.color = rng.choice([None, '#fff'])
+            put(lambda: g, 'color', rng.choice([None, '#fff']), 'group.color')
         return kind
     if kind.startswith('p.') and db.project is not None:
         if kind == 'p.name':
-            db.project.name = fresh('prj')
+            put(lambda: db.project, 'name', fresh('prj'), 'project.name')
         else:
             db.project.items['k%d' % (counter % 3)] = fresh('v')
         return kind
     if kind == 's.text' and db.sticky_notes:
-        rng.choice(db.sticky_notes).text = fresh('sticky text')
+        sn_ = rng.choice(db.sticky_notes)
+        put(lambda: sn_, 'text', fresh('sticky text'), 'sticky note.text')
         return kind
     if kind == 'db.allow_properties':
-        db.allow_properties = not db.allow_properties
+        put(lambda: db, 'allow_properties', not db.allow_properties, 'database.allow_properties')
         return kind
     return None
 
@@ -204,7 +222,7 @@ def impl_job(job):
         dump = O.dump_db(db)
     except O.OutOfModel as e:
         return {'skip': 'outOfModel:' + str(e)}
-    r = {'dump': dump, 'edits': edits, 'spec': spec, 'changed': changed}
+    r = {'dump': dump, 'edits': edits, 'spec': spec, 'changed': changed, 'lost': list(hd.get('lost', []))}
     r['after'] = elem_renderings(db)
     try:
         fresh, _ = GD.build(dump)
@@ -242,6 +260,9 @@ def main(tier, seed):
         if r.get('changed'):
             ctx.fail('evaluating a rendering changed the model itself (' + r['changed'][0] + '): later renderings no longer '
                      'reflect the state the caller built', {'op': 'edits', 'seed': job[0], 'n_edits': job[1]}, edits=r['edits'])
+        if r.get('lost'):
+            ctx.fail('an in-place edit is lost (' + r['lost'][0] + '): the renderings cannot show the value that was written',
+                     {'op': 'edits', 'seed': job[0], 'n_edits': job[1]}, edits=r['edits'], lost=r['lost'][:5])
         if 'fresh' in r:
             ctx.count('oracle:fresh-rebuilt')
             for key, v in r['after'].items():
